@@ -3,6 +3,7 @@
 use crate::Out;
 use hecs::*;
 use std::collections::BTreeMap;
+use std::panic::{catch_unwind, AssertUnwindSafe};
 
 #[derive(Clone, PartialEq, Debug)]
 pub struct Tk(pub u32);
@@ -118,6 +119,19 @@ pub fn run(args: &[u64], out: &mut Out) {
                     for (kind, limit) in reads {
                         match kind {
                             0 => {
+                                if (100..255).contains(&limit) {
+                                    // the consumer panics inside its loop after limit-100 items; the report iterator and
+                                    // (later) the Changes value are dropped during / after the unwinding
+                                    let r = catch_unwind(AssertUnwindSafe(|| {
+                                        let mut it = ch.added();
+                                        let mut items = Vec::new();
+                                        walk_exact(&mut it, (limit - 100) as usize, &mut items);
+                                        std::panic::panic_any(items.len());
+                                    }));
+                                    out.push(*r.unwrap_err().downcast::<usize>().unwrap() as u64);
+                                    seen_a = true;
+                                    continue;
+                                }
                                 let mut it = ch.added();
                                 let len = it.len();
                                 if limit < 255 {
@@ -148,6 +162,15 @@ pub fn run(args: &[u64], out: &mut Out) {
                                 seen_a = true;
                             }
                             1 => {
+                                if (100..255).contains(&limit) {
+                                    let r = catch_unwind(AssertUnwindSafe(|| {
+                                        let n = ch.changed().take((limit - 100) as usize).count();
+                                        std::panic::panic_any(n);
+                                    }));
+                                    out.push(*r.unwrap_err().downcast::<usize>().unwrap() as u64);
+                                    seen_c = true;
+                                    continue;
+                                }
                                 let it = ch.changed();
                                 if limit < 255 {
                                     out.push(it.take(limit as usize).count() as u64);
@@ -167,6 +190,17 @@ pub fn run(args: &[u64], out: &mut Out) {
                                 seen_c = true;
                             }
                             _ => {
+                                if (100..255).contains(&limit) {
+                                    let r = catch_unwind(AssertUnwindSafe(|| {
+                                        let mut it = ch.removed();
+                                        let mut items = Vec::new();
+                                        walk_exact(&mut it, (limit - 100) as usize, &mut items);
+                                        std::panic::panic_any(items.len());
+                                    }));
+                                    out.push(*r.unwrap_err().downcast::<usize>().unwrap() as u64);
+                                    seen_r = true;
+                                    continue;
+                                }
                                 let mut it = ch.removed();
                                 let len = it.len();
                                 if limit < 255 {
